@@ -130,12 +130,21 @@ class _Base:
         return {"pivot_of": self.pivot_of, "init": self.init, "loops": sorted(set(self.loops), key=repr), "divisor": self.divisor}
 
 
+def _accumulator_name(fn: FuncInfo) -> str:
+    """The local that accumulates the recurrence: the numerator of the returned quotient (`return <acc> / factor`)."""
+    for s in fn.node.body:
+        if isinstance(s, ast.Return) and isinstance(s.value, ast.BinOp) and isinstance(s.value.op, ast.Div) and isinstance(s.value.left, ast.Name):
+            return s.value.left.id
+    return "value"
+
+
 class NumpyReader(_Base):
     """`x = s.copy(); x[m] -= 1; get_index_in_fock_space(x)` dialect."""
 
     def __init__(self, fn: FuncInfo, param_terms: Dict[str, Term]):
         super().__init__(fn)
         self.env.update(param_terms)
+        self.acc = _accumulator_name(fn)
 
     def state(self, e: ast.AST) -> Term:
         if isinstance(e, ast.Name) and e.id in self.env and self.env[e.id][0] in ("ket", "bra", "lower"):
@@ -173,7 +182,7 @@ class NumpyReader(_Base):
                     self.env[t] = self.state(v.func.value)
                 elif isinstance(v, ast.Call) and (dotted(v.func) or "").split(".")[-1] == "get_index_in_fock_space":
                     self.env[t] = self.index(v)
-                elif t == "value":
+                elif t == self.acc:
                     self.init = self.product(v)
                 else:
                     self.fail(s, "assignment outside the recurrence fragment")
@@ -183,7 +192,7 @@ class NumpyReader(_Base):
                 nm = s.target.value.id
                 self.env[nm] = ("lower", self.state(s.target.value), self.mode_term(s.target.slice))
                 continue
-            if isinstance(s, ast.AugAssign) and isinstance(s.op, ast.Add) and isinstance(s.target, ast.Name) and s.target.id == "value":
+            if isinstance(s, ast.AugAssign) and isinstance(s.op, ast.Add) and isinstance(s.target, ast.Name) and s.target.id == self.acc:
                 p = self.product(s.value)
                 # a guard `S[m] > 0` is redundant exactly when sqrt(S[m]) is a factor of the summand
                 for g in guards:
@@ -207,7 +216,7 @@ class NumpyReader(_Base):
                 continue
             if isinstance(s, ast.Return):
                 v = s.value
-                if isinstance(v, ast.BinOp) and isinstance(v.op, ast.Div) and isinstance(v.left, ast.Name) and v.left.id == "value":
+                if isinstance(v, ast.BinOp) and isinstance(v.op, ast.Div) and isinstance(v.left, ast.Name) and v.left.id == self.acc:
                     f = self.factor(v.right)
                     self.divisor = f
                     continue
@@ -221,6 +230,7 @@ class JaxReader(_Base):
         super().__init__(fn)
         self.env.update(param_terms)
         self.occ_names: Dict[str, Term] = {}
+        self.acc = _accumulator_name(fn)
 
     def state_of_index(self, e: ast.AST) -> Term:
         i = self.index(e)
@@ -263,7 +273,10 @@ class JaxReader(_Base):
                 continue
             if isinstance(s, ast.Assign) and len(s.targets) == 1 and isinstance(s.targets[0], ast.Name):
                 t, v = s.targets[0].id, s.value
-                if t in ("d", "real_dtype"):
+                if t in ("d", "real_dtype") or (isinstance(v, ast.Call) and (dotted(v.func) or "") == "len") \
+                        or (isinstance(v, ast.Attribute) and v.attr in ("dtype", "shape", "real")):
+                    if isinstance(v, ast.Call) and (dotted(v.func) or "") == "len":
+                        self.d_names = set(self.d_names) | {t}
                     continue
                 if isinstance(v, ast.Call) and (dotted(v.func) or "").split(".")[-1] == "_first_nonzero_mode":
                     self.pivot_of = self.state(v.args[0])
@@ -275,19 +288,19 @@ class JaxReader(_Base):
                 if isinstance(v, ast.Subscript) and isinstance(v.value, ast.Name) and v.value.id == "lowered_indices":
                     self.env[t] = self.index(v)
                     continue
-                if t == "value" and isinstance(v, ast.Call) and (dotted(v.func) or "").endswith("fori_loop") and len(v.args) == 4:
+                if t == self.acc and isinstance(v, ast.Call) and (dotted(v.func) or "").endswith("fori_loop") and len(v.args) == 4:
                     lo, hi, body, init = v.args
                     if not (isinstance(lo, ast.Constant) and lo.value == 0 and isinstance(hi, ast.Name) and hi.id in self.d_names
-                            and isinstance(body, ast.Name) and body.id in bodies and isinstance(init, ast.Name) and init.id == "value"):
+                            and isinstance(body, ast.Name) and body.id in bodies and isinstance(init, ast.Name) and init.id == self.acc):
                         self.fail(s, "fori_loop is not `fori_loop(0, d, body, value)`")
                     self.loop_body(bodies[body.id])
                     continue
-                if t == "value":
+                if t == self.acc:
                     self.init = self.product(v)
                     continue
             if isinstance(s, ast.Return):
                 v = s.value
-                if isinstance(v, ast.BinOp) and isinstance(v.op, ast.Div) and isinstance(v.left, ast.Name) and v.left.id == "value":
+                if isinstance(v, ast.BinOp) and isinstance(v.op, ast.Div) and isinstance(v.left, ast.Name) and v.left.id == self.acc:
                     self.divisor = self.factor(v.right)
                     continue
             self.fail(s, "statement outside the recurrence fragment")
